@@ -86,6 +86,7 @@ VERDICT_RE = re.compile(
 
 # components of Corr/MysqlCorr.v cover_stats, in order
 COVER_KEYS = ["modify_all_total", "modify_under_restates_all", "modify_comment_lost", "modify_comment_lost_confirmed_on_impl_sql",
+              "modify_autoinc_supported", "modify_autoinc_restated_in_impl_sql",
               "r3_actions_under_a_proved_sim_lemma", "r3_migrations_fully_under_sim_lemmas",
               "delete_column_actions", "delete_column_r3", "delete_column_now",
               "rename_column_actions", "rename_column_r3", "rename_column_now",
